@@ -25,15 +25,52 @@ def main():
     a = ap.parse_args()
     if a.tier not in ("quick", "thorough"):
         a.tier = "quick"
-    import demes
+    chk = common.Check(a.prop.upper(), a.tier, a.seed)
+    try:
+        import demes
+    except BaseException as e:                       # the tree under test does not even import
+        import traceback
+        chk.unproven("harness:import", "the library under test cannot be imported, so nothing about the property is shown",
+                     dict(error=repr(e), traceback=traceback.format_exc()[-3000:]))
+        sys.exit(chk.finish("other", 1, 0, None, "no case could be run", explanation="import of the library failed"))
     if not os.path.abspath(demes.__file__).startswith(REPO + "/"):
         print("demes was not imported from %s: " % REPO + demes.__file__)
         sys.exit(2)
     mod = importlib.import_module("props." + a.prop.lower())
-    chk = common.Check(a.prop.upper(), a.tier, a.seed)
     if a.replay:
         sys.exit(mod.replay(chk, a.replay))
-    sys.exit(mod.run(chk))
+    # watchdog: a change that makes the library (or the check) run away must end in a report, not in a hang
+    import signal
+    limit = int(os.environ.get("VERIF_TIMEOUT", "1500" if a.tier == "quick" else "10800"))
+
+    class Watchdog(BaseException):       # not an Exception: the checks' own "except Exception" must not swallow it
+        pass
+
+    def on_alarm(signum, frame):
+        signal.alarm(5)                  # keep firing in case some bare "except:" swallows it
+        raise Watchdog("no result after %d s" % limit)
+    signal.signal(signal.SIGALRM, on_alarm)
+    signal.alarm(limit)
+    try:
+        rc = mod.run(chk)
+        signal.alarm(0)
+    except Watchdog as e:
+        signal.alarm(0)
+        import traceback
+        chk.violation("harness:timeout", "the check did not finish within %d s: some operation of the library no longer terminates promptly" % limit,
+                      dict(error=repr(e), where=traceback.format_exc()[-3000:]))
+        rc = chk.finish("other", 1, 0, None, "the run was stopped by the watchdog",
+                        explanation="stopped by the watchdog; the replay holds the stack at that moment")
+    except (KeyboardInterrupt, SystemExit):
+        raise
+    except BaseException as e:                       # a crash of the harness or of an unguarded library call
+        signal.alarm(0)
+        import traceback
+        chk.unproven("harness:crash", "the check did not complete (%s): nothing further about the property is shown" % type(e).__name__,
+                     dict(error=repr(e), traceback=traceback.format_exc()[-4000:]))
+        rc = chk.finish("other", 1, 0, None, "the run was interrupted by an exception",
+                        explanation="the check crashed; see the replay for the traceback")
+    sys.exit(rc)
 
 
 if __name__ == "__main__":
